@@ -217,7 +217,7 @@ func TestC09(t *testing.T) {
 	})
 
 	rapidCheck(t, "C09/random", tier(20000, 2000000), func(rt *rapid.T) {
-		span := rapid.SampledFrom([]int64{24 * nsHour, 24 * nsHour, 24 * nsHour, 130 * nsHour, 1000 * nsHour}).Draw(rt, "span")
+		span := rapid.SampledFrom([]int64{24 * nsHour, 24 * nsHour, 24 * nsHour, 130 * nsHour, 1000 * nsHour, 6000 * nsHour}).Draw(rt, "span")
 		cues := genCues(rt, 0, 8, span, opTextsWide)
 		if span > 24*nsHour {
 			// (a capture running for days, times in a format with more than two hour digits)
